@@ -65,14 +65,46 @@ def run_property(prop, tier, repo=None, seed=0, quiet=False):
     return report, mod
 
 
+WITNESS_PROPS = {"C05": ("ProcessMessageIsPrivate", "ClusterStateIsPrivate", "NoForeignMutableCopy", "ClusterStateTypeIsPrivate", "IncHeartbeatIsPrivate"),
+                 "C12": ("LivenessEvaluationIsPrivate",), "C13": ("WatchSenderIsPrivate",)}
+
+
+def thorough_extras(prop, report):
+    """thorough tier: rule liveness self-test (seeded mutants on scratch copies) and E3 compile-fail witnesses"""
+    import subprocess, re
+    from . import selftest
+    from concurrent.futures import ProcessPoolExecutor
+    ms = selftest.load_mutants(prop)
+    res = []
+    if ms:
+        with ProcessPoolExecutor(max_workers=min(12, len(ms))) as ex:
+            res = list(ex.map(selftest.run_mutant, ms))
+    summary = {"fired": [r[0] for r in res if r[1].startswith("fired")], "silent_ok": [r[0] for r in res if r[1] == "silent-ok"],
+               "skipped": [r[0] for r in res if r[1] == "skipped"], "missed": [r[0] for r in res if r[1] == "MISSED"],
+               "false_alarm": [r[0] for r in res if r[1] == "FALSE-ALARM"], "error": [r[0] for r in res if r[1] == "error"]}
+    report.extra["selftest"] = summary
+    print("self-test %s: %d mutants fired, %d behaviour-preserving edits silent, %d skipped, %d missed, %d false alarms" % (
+        prop, len(summary["fired"]), len(summary["silent_ok"]), len(summary["skipped"]), len(summary["missed"]), len(summary["false_alarm"])))
+    if prop in WITNESS_PROPS:
+        r = report.rule("E3", "compile-fail witnesses (external crate cannot name/call the internal mutators) with compiling twins")
+        out = subprocess.run([os.path.join(rep.VERIF, "witness", "run.sh")], stdout=subprocess.PIPE, stderr=subprocess.STDOUT).stdout.decode(errors="replace")
+        names = WITNESS_PROPS[prop]
+        for nm in names:
+            lines = [l for l in out.splitlines() if " - %s " % nm in l]
+            ok = len(lines) >= 2 and all(l.rstrip().endswith("ok") for l in lines)
+            report.obligation(ok, "%s/E3/witness/%s" % (prop, nm), "witness %s: %s" % (nm, [l[-60:] for l in lines] or out[-300:]), None,
+                              sample="%s: compile_fail with the expected error code + compiling twin" % nm)
+        report.instance(len(names))
+
+
 def main(argv):
     prop = argv[1].upper()
     tier = argv[2] if len(argv) > 2 else os.environ.get("VERIF_TIER", "quick")
     seed = int(os.environ.get("VERIF_SEED", "0") or 0)
     try:
         report, mod = run_property(prop, tier, seed=seed)
-        if tier == "thorough" and hasattr(mod, "thorough"):
-            mod.thorough(report)
+        if tier == "thorough":
+            thorough_extras(prop, report)
     except Exception as e:
         traceback.print_exc()
         report = rep.Report(prop, tier, seed)
